@@ -60,6 +60,19 @@ mut("ok-live-precond-no-assert", "benign", [], "acquire_handle without any asser
 mut("ok-live-precond-sum", "benign", [], "acquire_handle asserts liveness as a sum",
     [ed(I, "debug_assert!(handle_count >= 1 || self.guard_count.get() >= 1);",
         "debug_assert!(handle_count + self.guard_count.get() >= 1);")])
+mut("rev-F12-upgrade-no-trace", "break", ["C02", "C05"], "is_not_destructed grants without stamping when strong > 0",
+    [ed(U, """            let new = if old.strong() == 0 {
+                old.add_strong(1)
+            } else {
+                old.with_epoch(epoch)
+            };""", """            if old.strong() > 0 {
+                return true;
+            }
+            let new = old.add_strong(1);
+            let _ = epoch;""")], ["CW-UPGRADE-TRACE"])
+mut("F12-upgrade-stale-stamp", "break", ["C02"], "is_not_destructed stamps the epoch field it found instead of the current epoch",
+    [ed(U, "                old.with_epoch(epoch)\n            };", "                old.with_epoch(old.epoch() as usize)\n            };\n            let _ = epoch;")],
+    ["CW-UPGRADE-TRACE"])
 mut("rev-F6-epoch-before-pin", "break", ["C02"], "decrement_strong reads the epoch before pinning",
     [ed(U, """        let local_guard;
         let guard = match guard {
@@ -87,15 +100,11 @@ mut("cw-drop-second-fetch-add", "break", ["C01", "C05"], "increment_strong: toke
 mut("cw-try-inc-no-token", "break", ["C01", "C05"], "try_increment_strong adds 1 from zero",
     [ed(U, "old.add_strong(2)", "old.add_strong(1)")], ["CW-TOKEN"])
 mut("cw-is-not-destructed-no-token", "break", ["C02", "C05"], "is_not_destructed does not add the token at zero",
-    [ed(U, """                old.add_strong(1).as_raw(),
-                Ordering::SeqCst,
-                Ordering::SeqCst,
-            ) {
-                Ok(_) => return true,""", """                old.as_raw(),
-                Ordering::SeqCst,
-                Ordering::SeqCst,
-            ) {
-                Ok(_) => return true,""")], ["CW-TOKEN"])
+    [ed(U, """            let new = if old.strong() == 0 {
+                old.add_strong(1)
+            } else {""", """            let new = if old.strong() == 0 {
+                old
+            } else {""")], ["CW-TOKEN", "CW-UPGRADE-TRACE"])
 mut("cw-upgrade-ignores-destructed", "break", ["C05"], "try_increment_strong does not fail on DESTRUCTED",
     [ed(U, """            if old.destructed() {
                 return false;
@@ -661,6 +670,21 @@ mut("tag-swap-strips-new", "break", ["C08"], "AtomicRc::swap stores the new poin
 mut("tag-weak-load-strips", "break", ["C09"], "AtomicWeak::load returns the pointer without its tag",
     [ed(W, "        WeakSnapshot::from_raw(self.link.load(order), guard)", "        WeakSnapshot::from_raw(self.link.load(order).with_tag(0), guard)")],
     ["OWN-PROVENANCE", "LINK-TAG"])
+mut("rec-edges-break", "break", ["C06"], "the edge loop breaks at the first null edge",
+    [ed(U, """            if next.is_null() {
+                continue;
+            }
+""", """            if next.is_null() {
+                break;
+            }
+""")], ["REC-IMMEDIATE"])
+mut("ok-rec-edges-filter", "benign", [], "the edge loop filters null edges with an iterator adaptor",
+    [ed(U, """        for next in outgoings.drain(..) {
+            if next.is_null() {
+                continue;
+            }
+""", """        for next in outgoings.drain(..).filter(|next| !next.is_null()) {
+""")])
 mut("rec-collect-reentrant", "break", ["C07"], "unpin collects even while a collection is running (flag not tested)",
     [ed(I, "if guard_count == 1 && !self.collecting.get() {", "if guard_count == 1 {")], ["REC-COLLECT-REENTRY"])
 mut("rec-collecting-cleared-in-schedule", "break", ["C07"], "schedule_collection clears the collecting flag",
